@@ -97,12 +97,10 @@ pub assume_specification<T, E, F: FnOnce(E) -> T>[ Result::<T, E>::unwrap_or_els
     requires r matches Err(e) ==> op.requires((e,)),
     ensures r matches Ok(t) ==> o == t, r matches Err(e) ==> op.ensures((e,), o);
 
-@@extract struct src/rtps/message_receiver.rs MessageReceiverState keep=source_guid_prefix
 @@extract enum src/rtps/message_receiver.rs SecureReceiverState
 @@extract struct src/rtps/message_receiver.rs SecureWrapping
+@@extract struct src/rtps/message_receiver.rs MessageReceiverState
 impl Clone for SecureWrapping { #[verifier::external_body] fn clone(&self) -> (r: SecureWrapping) ensures r == *self { unimplemented!() } }
-#[verifier::external_body] pub struct Locator { p: u8 }
-#[verifier::external_body] pub struct Timestamp { p: u8 }
 @@extract struct src/rtps/message_receiver.rs MessageReceiver opaque=available_readers:ReaderMap;acknack_sender:AckNackSender;spdp_liveness_sender:LivenessSender
 
 impl MessageReceiver {
@@ -155,7 +153,6 @@ impl MessageReceiver {
         ensures
             final(self).frame_eq(old(self)),
             final(self).available_readers.lookups() == old(self).available_readers.lookups().push(reader_id),
-            r matches Some(rd) ==> rd.guid_spec() == (GUID { prefix: old(self).own_guid_prefix, entity_id: reader_id }),
     { unimplemented!() }
 
     // EXIT towards a Writer: `self.acknack_sender.try_send(..)` (call path lifted to the receiver so
@@ -167,8 +164,9 @@ impl MessageReceiver {
             self.rtps_gate_writer(t.1.writer_id_spec()),   // [gate.rtps.w]
     { unimplemented!() }
 
-    #[verifier::external_body]
-    pub fn clone_partial_message_receiver_state(&self) -> (r: MessageReceiverState)
-        ensures r.source_guid_prefix == self.source_guid_prefix
-    { unimplemented!() }
+@@extract fn src/rtps/message_receiver.rs MessageReceiver::clone_partial_message_receiver_state
+@@ret r
+@@ensures gate.frame.state
+    r.source_guid_prefix == self.source_guid_prefix
+@@end
 }
